@@ -36,7 +36,7 @@ theorem gen_serialize_time (h mi s : Nat) (hmi : mi < 64) (hs : s < 64) :
   rw [show (11 : Nat) = 6 + 5 from rfl, Bits.or3 h mi (s / 2) 6 5 (by simpa using hmi) (by omega)]
   simp [timeWord]
 
-private theorem mask (w i : Nat) (m : Nat) (hm : m = 2 ^ i - 1) :
+theorem mask (w i : Nat) (m : Nat) (hm : m = 2 ^ i - 1) :
     Py.land (w : Int) (m : Int) = ((w % 2 ^ i : Nat) : Int) := by
   subst hm; simp
 
@@ -110,13 +110,13 @@ theorem time_word_lt (h mi s : Nat) (hh : h < 24) (hmi : mi < 60) (hs : s < 60) 
 /-- decode ∘ encode on words: a word whose fields are a valid date re-encodes to itself -/
 theorem date_word_roundtrip (w : Nat) (hw : w < 65536)
     (hv : validDate (dateYear w) (dateMonth w) (dateDay w) = true) :
-    (let (y, m, d) := decodeDate w; dateWord y m d) = w := by
+    dateWord (decodeDate w).1 (decodeDate w).2.1 (decodeDate w).2.2 = w := by
   unfold decodeDate; rw [if_pos hv]
   simp only [dateWord, dateYear, dateMonth, dateDay]; omega
 
 theorem time_word_roundtrip (w : Nat) (hw : w < 65536)
     (hv : validTime (timeHour w) (timeMinute w) (timeSecond w) = true) :
-    (let (h, mi, s) := decodeTime w; timeWord h mi s) = w := by
+    timeWord (decodeTime w).1 (decodeTime w).2.1 (decodeTime w).2.2 = w := by
   unfold decodeTime; rw [if_pos hv]
   simp only [timeWord, timeHour, timeMinute, timeSecond]; omega
 
